@@ -30,6 +30,7 @@ CONTAINER_METHODS = {
     "insert", "setdefault", "clear", "add", "discard", "index", "count",
     "format", "join", "split", "rsplit", "encode", "decode", "startswith", "endswith",
     "rstrip", "lstrip", "strip", "replace", "lower", "upper", "isoformat", "splitlines",
+    "difference", "union", "intersection", "symmetric_difference", "issubset", "issuperset", "isdisjoint", "difference_update", "intersection_update",
 }
 
 STDLIB_TRUSTED = {
